@@ -158,6 +158,15 @@ func genC01(g *Gen) {
 	g.setMode(0)
 	for !g.w.full() {
 		switch g.r.Intn(11) {
+		case 11:
+			x, y := g.topValue(), g.topValue()
+			if g.r.Intn(2) == 0 {
+				y = mk(g.r.Intn(2) == 0, g.tail(1+g.r.Intn(6)), eMax-g.r.Intn(45))
+			}
+			if g.r.Intn(4) == 0 {
+				x, y = g.bottomValue(), g.bottomValue()
+			}
+			g.allModes(g.addSubOp(), x, y)
 		case 10:
 			x := mk(g.r.Intn(2) == 0, g.wrapCoef(), g.r.Intn(41)-20)
 			y := mk(g.r.Intn(2) == 0, g.boundaryCoef(), g.r.Intn(81)-40)
@@ -265,7 +274,21 @@ func (g *Gen) quoPair() (x, y d128.Decimal) {
 func genC02(g *Gen) {
 	g.setMode(0)
 	for !g.w.full() {
-		switch g.r.Intn(16) {
+		switch g.r.Intn(18) {
+		case 16:
+			x, y := g.mulToTop()
+			g.allModes("Mul", x, y)
+		case 17: // quotients and products of range-end values
+			x, y := g.topValue(), g.bottomValue()
+			switch g.r.Intn(4) {
+			case 0:
+				y = mk(g.r.Intn(2) == 0, big.NewInt(int64(1+g.r.Intn(9))), -g.r.Intn(40))
+			case 1:
+				x, y = y, x
+			case 2:
+				y = g.topValue()
+			}
+			g.allModes([]string{"Mul", "Quo"}[g.r.Intn(2)], x, y)
 		case 10, 11, 12:
 			if x, y, ok := g.mulSolved(); ok {
 				g.allModes("Mul", x, y)
